@@ -23,6 +23,8 @@ func main() {
 	maxPaths := flag.Int("maxpaths", 0, "stop after this many paths (reported as bound failure)")
 	out := flag.String("out", "", "write result JSON here")
 	qlog := flag.String("qlog", "", "log deciding queries")
+	fallback := flag.String("fallback", "", "second solver for queries the first answers unknown")
+	maxSteps := flag.Int64("maxsteps", 0, "instruction limit per path")
 	intMode := flag.Bool("int", false, "integer encoding instead of bit-vectors")
 	funcs := flag.Bool("funcs", false, "include names of executed repo functions in the result")
 	params := flag.String("params", "", "harness bounds: name=val,name=val")
@@ -43,7 +45,7 @@ func main() {
 		os.Exit(sym.RunConcrete(p, *fn))
 	}
 	st, err := sym.Explore(p, sym.Config{Harness: *fn, Workers: *workers, SolverKind: *solver,
-		TimeoutMS: *timeout, MaxPaths: *maxPaths, QueryLog: *qlog, Params: pm, IntMode: *intMode})
+		TimeoutMS: *timeout, MaxPaths: *maxPaths, QueryLog: *qlog, Params: pm, IntMode: *intMode, Fallback: *fallback, MaxSteps: *maxSteps})
 	if err != nil {
 		fmt.Fprintln(os.Stderr, "explore:", err)
 		os.Exit(2)
